@@ -280,7 +280,7 @@ def cases(rng, tier, worker, nworkers):
         for f in sorted(glob.glob(os.path.join(os.path.dirname(__file__), '..', '..', 'corpus', 'C15', '*.json'))):
             yield json.load(open(f))['case']
         yield from directed()
-    n_random = 6000 if tier == 'quick' else 120000 // nworkers
+    n_random = 4500 if tier == 'quick' else 120000 // nworkers
     opts_clean = {'nonfinite': 0.02, 'exotic': 0.0, 'small_year': 0.15}
     opts_all = {'nonfinite': 0.03, 'exotic': 0.12, 'small_year': 0.3, 'findings': True}
     for i in range(n_random):
